@@ -237,7 +237,9 @@ impl Kernel for World {
         self.calls.push(format!("sleep:{}", ns));
         self.sleeps.push(ns);
         let before = self.now;
-        self.now += ns + self.rng.below(self.jitter_max + 1);
+        // a request may be absurdly long (`Duration::from_millis(u64::MAX)` after an arithmetic slip in the library): the clock
+        // saturates in the far future instead of wrapping around, so that the call returns and the oracles see the one long sleep
+        self.now = self.now.saturating_add(ns.min(1u64 << 62)).saturating_add(self.rng.below(self.jitter_max + 1)).min(1u64 << 62);
         // a sleep that comes after no status check at all since the previous sleep: the library is napping its way to a far
         // deadline without looking (each nap is <= 100 ms, the deadline may be weeks away).  After a few thousand of those the
         // clock is moved to the far future so that the operation ends; the oracles see the run of unchecked naps.
@@ -757,6 +759,8 @@ pub fn run(seed: u64, n: usize, replay: Option<&str>) {
         for (p, m) in &r.oracle {
             writeln!(out, "ORACLE {} {}", p, m).unwrap();
         }
+        // one flush per case: when a later case hangs, what was finished is on the pipe and the hanging case is the next one
+        out.flush().unwrap();
     }
     let _ = Op::parse; // used by replays from files (kept for the protocol's symmetry)
 }
